@@ -16,11 +16,8 @@ import (
 )
 
 func backgroundCompaction(db *DB) {
-	defer func() {
-		db.doneCompactionChannel <- true
-	}()
-
 	if !db.enableCompactions {
+		db.doneCompactionChannel <- true
 		return
 	}
 
@@ -52,6 +49,10 @@ func backgroundCompaction(db *DB) {
 	if err != nil {
 		log.Panicf("error while compacting, error was %v", err)
 	}
+
+	// only signalled on a regular shutdown: as a deferred function this send would also run while the panic above unwinds
+	// and block on the unbuffered channel until Close, the failed compaction would go unnoticed
+	db.doneCompactionChannel <- true
 }
 
 func executeCompaction(db *DB) (compactionMetadata *proto.CompactionMetadata, err error) {
